@@ -346,8 +346,8 @@ def run_case(case: dict, ctx: dict) -> dict:
         raised = None
         try:
             gen2 = DSDLCodeGenerator(ns, **dict(kw, **{k: v for k, v in add_kw.items() if v}))
-        except RuntimeError as ex:
-            raised = str(ex)
+        except Exception as ex:  # pylint: disable=broad-except
+            raised = "%s: %s" % (type(ex).__name__, ex)  # (refused loudly - whatever the exception: not a silent replacement)
         evaluations += 1
         bump("ops", "environment-with-additions")
         for kind, name in adds:
